@@ -15,6 +15,8 @@ def toml_for(cfg):
     for k in ("similarity_threshold", "type1_threshold", "type2_threshold", "type3_threshold", "type4_threshold",
               "min_similarity", "max_similarity"):
         lines.append("%s = %s" % (k, repr(float(cfg[k]))))
+    if cfg.get("max_edit_distance") is not None:
+        lines.append("max_edit_distance = %s" % repr(float(cfg["max_edit_distance"])))
     lines.append("enabled_clone_types = [%s]" % ", ".join('"type%d"' % t for t in cfg["enabled"]))
     lines.append("enable_dfa = %s" % ("true" if cfg["enable_dfa"] else "false"))
     lines.append('lsh_enabled = "%s"' % cfg["lsh_enabled"])
@@ -296,6 +298,384 @@ def twin_section(ck, rng, thorough, stats, base):
                               "order_b": [m["b"], m["a"]], "pairs_b": sorted(got[1]), "sim_ab": sab, "sim_ba": sba})
 
 
+WIDE_LSH = dict(bands=64, rows=1, hashes=64, threshold=0.0)
+
+
+def justify_problem(s, d, ty, fa, fb, cell, t, thr, maxd, min_nodes, min_lines):
+    """The clauses of 'justified' that hold on every detection path (Props/C08.v C08_justified up to the service-side filter):
+    None, or what is wrong with a pair reported with similarity s, distance d and type ty.  cell: the tree comparison of the two
+    fragments (similarity, distance) or None."""
+    if s < thr or s < t[3]:
+        return "has similarity %r below the reporting threshold %r (Type-4 threshold %r)" % (s, thr, t[3])
+    if maxd > 0 and d > maxd:
+        return "has edit distance %r above max_edit_distance %r" % (d, maxd)
+    if ty != cc.band_of(s, t):
+        return "has type %d which is not the band of its similarity %r (thresholds %s)" % (ty, s, t)
+    if min(fa["size"], fb["size"]) < min_nodes or min(fa["lines"], fb["lines"]) < min_lines:
+        return "has a fragment below the minimum size (sizes %d/%d lines %d/%d, min %d nodes %d lines)" % (
+            fa["size"], fb["size"], fa["lines"], fb["lines"], min_nodes, min_lines)
+    if cc.overlap(fa, fb):
+        return "overlaps in one file"
+    if cell is None or cell[0] != s or cell[1] != d:
+        return "has similarity/distance %r/%r which is not the tree comparison's %s" % (s, d, cell)
+    return None
+
+
+def pick_reporting_limits(side, pool, t, force):
+    """Reporting threshold ON / 2^-40 next to an observed similarity above Type-4 and max edit distance ON / next to the observed distance
+    of a pair at or above that threshold.  pool: [(sim, dist)] of the pairs a lenient run reports.  force: leave at least one pair
+    between Type-4 and the threshold and one pair above the distance limit (a near miss of each kind).  None if the pool has none."""
+    above = sorted({s for s, _ in pool if s > t[3]})
+    if len(above) < 2:
+        return None
+    if force:
+        # the lowest choice that still leaves two distinct distances at or above it
+        for s in above[1:]:
+            ds = sorted({d for x, d in pool if x >= s + EPS40 and d > 0})
+            if len(ds) >= 2:
+                break
+        else:
+            return None
+    else:
+        s = side.choice(above)
+    thr = min(1.0, s + side.choice([0.0, 0.0, EPS40, -EPS40]))
+    ds = sorted({d for x, d in pool if x >= thr and d > 0})
+    if not ds:
+        return thr, side.choice([0.0, 50.0])
+    d = side.choice(ds[:-1] if force and len(ds) > 1 else ds)
+    maxd = d + side.choice([0.0, 0.0, EPS40, -EPS40])
+    return thr, (maxd if maxd > 0 else d)
+
+
+def pick_big_limits(side, pool, cross, t):
+    """As pick_reporting_limits (with near misses of both kinds), and the near miss of the reporting threshold includes a pair on
+    both sides of the batch boundary: the threshold lies above the lowest similarity (>= Type-4) of such a pair.  cross: the
+    [(sim, dist)] of the pairs with one fragment before and one after the boundary."""
+    xs = sorted({s for s, _ in cross if s >= t[3]})
+    if not xs:
+        return None
+    above = [s for s in sorted({s for s, _ in pool}) if s > xs[0]]
+    side.shuffle(above)
+    for s in above:
+        thr = min(1.0, s + side.choice([0.0, 0.0, EPS40, -EPS40]))
+        ds = sorted({d for x, d in pool if x >= thr and d > 0})
+        if thr > xs[0] and len(ds) >= 2:
+            d = side.choice(ds[:-1])
+            maxd = d + side.choice([0.0, 0.0, EPS40, -EPS40])
+            return thr, (maxd if maxd > 0 else d)
+    return None
+
+
+def plan_path_runs(side, projects, probes, thorough):
+    """Detector-level runs on the generated projects with a small BatchSizeThreshold (the public entry point batches), reporting threshold
+    and MaxEditDistance on / next to observed values; every detection path of the hook (standard loop, public entry point, batched
+    loop for batch sizes 1, 3, 7, LSH)."""
+    runs = []
+    order = list(range(len(projects)))
+    side.shuffle(order)
+    n_runs = 40 if thorough else 4
+    for pi in order * 3:
+        if len(runs) >= n_runs:
+            break
+        probe = probes[pi]
+        if "error" in probe:
+            continue
+        frs = probe["frags"]
+        ml, mn = 4, 6
+        while sum(1 for f in frs if f["lines"] >= ml and f["size"] >= mn) > (40 if thorough else 28):
+            ml, mn = ml + 1, mn + 1
+        ok = {i for i, f in enumerate(frs) if f["lines"] >= ml and f["size"] >= mn}
+        pool = [(p["sim"], p["dist"]) for p in probe["exh_raw"] if p["i"] in ok and p["j"] in ok]
+        t = cc.rand_thresholds(side, [x for x, _ in pool])
+        if t[3] < 0.3 + 1e-9:       # the probe saw the pairs from similarity 0.3 on
+            continue
+        lim = pick_reporting_limits(side, pool, t, force=len(runs) < 2)
+        if lim is None:
+            continue
+        gate = False                # the classifier gate is exercised by the command-line runs; the probe's comparisons have none
+        cfg = dict(MinLines=ml, MinNodes=mn, SimilarityThreshold=lim[0], MaxEditDistance=lim[1], Type1Threshold=t[0], Type2Threshold=t[1],
+                   Type3Threshold=t[2], Type4Threshold=t[3], SkipDocstrings=False, ReduceBoilerplateSimilarity=False, BoilerplateMultiplier=0,
+                   MaxClonePairs=10000, BatchSizeThreshold=side.choice([1, 2, 3]), BatchSizeLarge=side.choice([1, 2, 3, 7, 0]),
+                   BatchSizeSmall=side.choice([2, 5, 0]), LargeProjectSize=side.choice([0, 10, 500]), EnableDFAAnalysis=gate)
+        lsh = [WIDE_LSH, dict(bands=side.choice([1, 8, 32]), rows=side.choice([1, 2, 4]), hashes=side.choice([16, 64, 128]), threshold=side.choice([0.0, 0.3, 0.5]))]
+        texts = projects[pi][0]
+        near = sum(1 for x, d in pool if t[3] <= x < lim[0]), sum(1 for x, d in pool if x >= lim[0] and lim[1] > 0 and d > lim[1])
+        # the tree comparisons (similarity, distance) are those of the lenient probe run, by fragment location
+        cells = {}
+        for p in probe["exh_raw"]:
+            a, b = frs[p["i"]], frs[p["j"]]
+            cells[((a["file"], a["start"], a["end"]), (b["file"], b["start"], b["end"]))] = (p["sim"], p["dist"])
+        runs.append(dict(pi=pi, texts=texts, cfg=cfg, near=near, cells=cells,
+                         req=cc.driver_req(sorted(texts.items()), cfg, batch_sizes=[1, 3, 7], lsh=lsh, table="none")))
+    return runs
+
+
+def decide_path_runs(ck, runs, results, stats, jobs, thorough):
+    """Every clause of 'justified' on the output of every detection path; verbatim copies on every path; model terms."""
+    for ri, (r, res) in enumerate(zip(runs, results)):
+        if "error" in res:
+            ck.broken_ties.append("driver clone_pairs failed (detection paths): %s" % res["error"])
+            continue
+        cfg, frags = r["cfg"], res["frags"]
+        t = [cfg["Type1Threshold"], cfg["Type2Threshold"], cfg["Type3Threshold"], cfg["Type4Threshold"]]
+        thr = cfg["SimilarityThreshold"] if cfg["SimilarityThreshold"] > 0 else t[3]
+        at = {(f["file"], f["start"], f["end"]): i for i, f in enumerate(frags)}
+        cells = {}
+        for (la, lb), v in r["cells"].items():
+            if la in at and lb in at:
+                cells[(at[la], at[lb])] = cells[(at[lb], at[la])] = v
+        replay = {"kind": "detector-paths", "files": r["texts"], "detector_config": cfg, "request": r["req"]}
+        n = len(frags)
+        stats["path_runs"] = stats.get("path_runs", 0) + 1
+        stats["path_batched_public"] = stats.get("path_batched_public", 0) + (n > cfg["BatchSizeThreshold"])
+        stats["path_near_miss_similarity"] = stats.get("path_near_miss_similarity", 0) + r["near"][0]
+        stats["path_near_miss_distance"] = stats.get("path_near_miss_distance", 0) + r["near"][1]
+        paths = [("the standard double loop", res["exh_raw"]), ("the public entry point (BatchSizeThreshold %d, %d fragments)" % (cfg["BatchSizeThreshold"], n), res["detect"])]
+        paths += [("the batched loop with batch size %s" % bs, ps) for bs, ps in sorted(res["batched"].items())]
+        paths += [("the LSH path (bands %d rows %d hashes %d threshold %r)" % (lr["params"]["bands"], lr["params"]["rows"], lr["params"]["hashes"], lr["params"]["threshold"]),
+                   lr["pairs"]) for lr in res["lsh"]]
+        same = [(i, j) for i in range(n) for j in range(i + 1, n) if frags[i]["tree"] == frags[j]["tree"] and not cc.overlap(frags[i], frags[j])
+                and not cc.line_prefilter_rejects(frags[i]["lines"], frags[j]["lines"])]
+        for name, ps in paths:
+            seen = {}
+            for p in ps:
+                fa, fb = frags[p["i"]], frags[p["j"]]
+                bad = justify_problem(p["sim"], p["dist"], p["type"], fa, fb, cells.get((p["i"], p["j"])), t, thr, cfg["MaxEditDistance"], cfg["MinNodes"], cfg["MinLines"])
+                if not bad and (p["i"] == p["j"] or cc.upair(p["i"], p["j"]) in seen):
+                    bad = "is reported twice"
+                if bad:
+                    ck.violation("%s reports a pair that is not justified: %s / %s %s" % (name, floc(fa), floc(fb), bad), dict(replay, path=name, pair=p, frag_a=fa, frag_b=fb))
+                    break
+                seen[cc.upair(p["i"], p["j"])] = (p["sim"], p["dist"], p["type"])
+                stats["path_pairs"] = stats.get("path_pairs", 0) + 1
+                if any(abs(p["sim"] - x) < 1e-9 for x in t + [thr]) or (cfg["MaxEditDistance"] > 0 and abs(p["dist"] - cfg["MaxEditDistance"]) < 1e-9):
+                    stats["path_boundary_pairs"] = stats.get("path_boundary_pairs", 0) + 1
+            else:
+                for i, j in same:
+                    stats["path_verbatim_expected"] = stats.get("path_verbatim_expected", 0) + 1
+                    if seen.get((i, j)) != (1.0, 0.0, 1):
+                        ck.violation("%s does not report a verbatim copy as (1.0, 0, Type-1): %s vs %s, got %s" % (name, floc(frags[i]), floc(frags[j]), seen.get((i, j))),
+                                     dict(replay, path=name, frag_a=frags[i], frag_b=frags[j]))
+                        break
+        # model: the same fragments and configuration on the comparison loops.  Similarity cells = the probe's comparisons (a pair
+        # the probe does not report was rejected by a pre-filter or lies below 0.3: the missing cell reproduces that), no feature lists
+        # (the Jaccard pre-filter and the LSH stage are tied to the model by the command-line cases above and by C09)
+        if n == 0 or res["uses_gate"]:
+            continue
+        files, trees = cc.Coder(), cc.Coder()
+        mc = cc.model_cfg_from_detector(dict(cc.service_cfg({k: 0 for k in (
+            "min_lines", "min_nodes", "type1_threshold", "type2_threshold", "type3_threshold", "type4_threshold", "similarity_threshold",
+            "max_edit_distance", "ignore_literals", "ignore_identifiers", "skip_docstrings", "enable_dfa", "lsh_similarity_threshold",
+            "lsh_bands", "lsh_rows", "lsh_hashes")}), **cfg), use_gate=False)
+        table = {"table": [dict(i=k[0], j=k[1], sim=v[0], dist=v[1], gate=True) for k, v in cells.items()]}
+        cellsq, gates = cc.coq_cells(table, mc["t4"])
+        body = "Definition c0 := %s.\nDefinition fs0 := %s.\n" % (cc.coq_cfg(mc), clist([cc.coq_frag(i, f, files, trees) for i, f in enumerate(frags)]))
+        body += "Definition tabs0 := Build_tables %s %s [].\n" % (cellsq, gates)
+        body += "Eval vm_compute in (run_exhaustive tabs0 c0 fs0).\nEval vm_compute in (run_detect tabs0 c0 fs0).\n"
+        evals = [("the standard double loop", res["exh_raw"]), ("the public entry point", res["detect"])]
+        for bs, ps in sorted(res["batched"].items()):
+            body += "Eval vm_compute in (run_batched tabs0 c0 fs0 %s).\n" % cZ(int(bs))
+            evals.append(("the batched loop with batch size %s" % bs, ps))
+        jobs.append(("C08_paths_%d" % ri, cc.REQ, body))
+        r["job"], r["evals"] = len(jobs) - 1, evals
+
+
+def tie_path_runs(ck, runs, model_out, stats):
+    for r in runs:
+        if "job" not in r:
+            continue
+        for (name, ps), v in zip(r["evals"], model_out[r["job"]]):
+            impl = {cc.upair(p["i"], p["j"], p["type"]) for p in ps}
+            m = {cc.upair(a, b, ty) for a, b, ty in cc.pairs_of_model(v)}
+            stats["path_model_cases"] = stats.get("path_model_cases", 0) + 1
+            if impl != m:
+                ck.broken_ties.append("model differs from %s: model-only %s impl-only %s (cfg %s)" % (name, sorted(m - impl)[:3], sorted(impl - m)[:3], r["cfg"]))
+
+
+def run_big_project(ck, side, base, thorough):
+    """A project with more than 100 fragments through `pyscn analyze` (batched comparison, batch size 100: the fragments from the 101st
+    on are compared with all earlier ones): a lenient run (reporting threshold = Type-4 = 0.5) shows the similarities and distances,
+    then the run under test with the reporting threshold (configuration file or --clone-threshold) and max_edit_distance on / next to
+    observed values.  Runs beside the other sections; decided by decide_big_project."""
+    out = {}
+    try:
+        files, items = cc.gen_family_files(side, 13)
+        pcfg = dict(MinLines=4, MinNodes=6, MaxEditDistance=0, SimilarityThreshold=0, Type1Threshold=0.85, Type2Threshold=0.75, Type3Threshold=0.7,
+                    Type4Threshold=0.65, MaxClonePairs=10000, BatchSizeThreshold=50, CostModelType="python", SkipDocstrings=True)
+        pres = [cc.norm(x) for x in lib.driver([cc.driver_req([f], pcfg, table="none") for f in files], timeout=900)]
+        total, keep = 0, 0
+        for f, pr in zip(files, pres):
+            if "error" in pr or pr.get("parse_errors"):
+                return dict(error="driver probe of the big project failed: %s" % (pr.get("error") or pr.get("parse_errors")))
+            if total > 101:
+                break
+            total += len(pr["frags"])
+            keep += 1
+        if total <= 100:
+            return dict(error="generator: the big project has only %d fragments" % total)
+        files, pres = files[:keep], pres[:keep]
+        out.update(texts=dict(files), items=[it for it in items if it["path"] in dict(files)], probe={f[0]: pr for f, pr in zip(files, pres)})
+        d = os.path.join(base, "big")
+        shutil.rmtree(d, ignore_errors=True)
+        for p, txt in files:
+            os.makedirs(os.path.dirname(os.path.join(d, p)), exist_ok=True)
+            with open(os.path.join(d, p), "w") as f:
+                f.write(txt)
+        dfa = side.random() < 0.5
+        common = dict(min_lines=4, min_nodes=6, enable_dfa=dfa, lsh_enabled=side.choice(["false", "auto"]), lsh=None)
+        lenient = dict(common, similarity_threshold=0.5, type1_threshold=0.99, type2_threshold=0.98, type3_threshold=0.97, type4_threshold=0.5,
+                       min_similarity=0.0, max_similarity=1.0, enabled=[1, 2, 3, 4])
+        with open(os.path.join(d, ".pyscn.toml"), "w") as f:
+            f.write(toml_for(lenient))
+        rc, data, err = lib.analyze_json(d, ["--select", "clones"])
+        if data is None or not data.get("clone"):
+            return dict(out, error="pyscn analyze produced no clone report for the big project (rc=%s): %s" % (rc, (err or "")[-200:]))
+        out["lenient"] = data["clone"]
+        pool = [(p["similarity"], p["distance"]) for p in (data["clone"]["clone_pairs"] or [])]
+        # fragment positions in the order the files were analysed: which reported pairs straddle the batch boundary
+        fidx, k = {}, 0
+        for path in data["clone"]["request"]["paths"]:
+            for f in out["probe"][path]["frags"]:
+                fidx[(f["file"], f["start"], f["end"])] = k
+                k += 1
+        at = [(fidx.get(loc_of(p["clone1"]), -1), fidx.get(loc_of(p["clone2"]), -1)) for p in (data["clone"]["clone_pairs"] or [])]
+        cross = [pool[i] for i, (a, b) in enumerate(at) if min(a, b) >= 0 and max(a, b) >= 100 > min(a, b)]
+        lim = None
+        for _ in range(60):
+            t = cc.rand_thresholds(side, [x for x, _ in pool])
+            lim = pick_big_limits(side, pool, cross, t) if t[3] >= 0.5 else None
+            if lim:
+                break
+        if not lim:
+            return dict(out, error="generator: the big project has no near miss on both sides of the batch boundary (%d pairs of the lenient run straddle it)" % len(cross))
+        how = side.choice(["file", "flag"])
+        k = side.random()
+        min_sim, max_sim = (0.0, 1.0) if k < 0.7 else (side.choice([x for x, _ in pool] or [0.7]), 1.0)
+        enabled = [1, 2, 3, 4] if side.random() < 0.6 else sorted(side.sample([1, 2, 3, 4], side.randint(2, 3)))
+        strict = dict(common, similarity_threshold=lim[0] if how == "file" else 0.65, max_edit_distance=lim[1], type1_threshold=t[0], type2_threshold=t[1],
+                      type3_threshold=t[2], type4_threshold=t[3], min_similarity=min_sim, max_similarity=max_sim, enabled=enabled)
+        toml = toml_for(strict)
+        with open(os.path.join(d, ".pyscn.toml"), "w") as f:
+            f.write(toml)
+        flags = ["--clone-threshold=%r" % lim[0]] if how == "flag" else []
+        rc, data, err = lib.analyze_json(d, ["--select", "clones"] + flags)
+        if data is None or not data.get("clone"):
+            return dict(out, error="pyscn analyze produced no clone report for the big project (rc=%s): %s" % (rc, (err or "")[-200:]))
+        out.update(strict=data["clone"], toml=toml, flags=flags, limits=lim, how=how)
+    except Exception as e:      # reported by the main thread
+        out["error"] = "big project: %r" % (e,)
+    return out
+
+
+def decide_big_project(ck, big, stats, jobs):
+    if big.get("error"):
+        ck.broken_ties.append(big["error"])
+        return
+    clone, req = big["strict"], big["strict"]["request"]
+    replay = {"kind": "cli-big", "files": big["texts"], "toml": big["toml"], "flags": big["flags"], "request": req}
+    frags, cands = [], []
+    for path in req["paths"]:
+        pr = big["probe"].get(path)
+        if pr is None:
+            ck.broken_ties.append("big project: pyscn analysed %s which was not generated" % path)
+            return
+        frags += pr["frags"]
+        cands += pr["candidates"]
+    n = len(frags)
+    stats["big_fragments"], stats["big_files"] = n, len(req["paths"])
+    t = [req["type1_threshold"], req["type2_threshold"], req["type3_threshold"], req["type4_threshold"]]
+    thr = req["similarity_threshold"] if req["similarity_threshold"] > 0 else t[3]
+    if n <= 100 or abs(thr - big["limits"][0]) > 1e-12 or abs(req["max_edit_distance"] - big["limits"][1]) > 1e-12 or req["min_lines"] != 4 or req["min_nodes"] != 6:
+        ck.broken_ties.append("big project: %d fragments, request threshold %r / max_edit_distance %r / min sizes %d, %d but the generator meant %r / %r / 4, 6 (%s)" % (
+            n, thr, req["max_edit_distance"], req["min_lines"], req["min_nodes"], big["limits"][0], big["limits"][1], big["how"]))
+        return
+    fidx = {(f["file"], f["start"], f["end"]): i for i, f in enumerate(frags)}
+    cells = {}
+    for p in big["lenient"]["clone_pairs"] or []:
+        ia, ib = fidx.get(loc_of(p["clone1"])), fidx.get(loc_of(p["clone2"]))
+        if ia is None or ib is None:
+            ck.broken_ties.append("big project: the lenient run reports %s / %s which the fragment extraction of the hook does not list" % (loc_of(p["clone1"]), loc_of(p["clone2"])))
+            return
+        cells[(ia, ib)] = cells[(ib, ia)] = (p["similarity"], p["distance"])
+    pairs = clone["clone_pairs"] or []
+    stats["big_reported_pairs"], stats["big_lenient_pairs"] = len(pairs), len(cells) // 2
+    seen, bad = {}, None
+    for p in pairs:
+        la, lb = loc_of(p["clone1"]), loc_of(p["clone2"])
+        ia, ib = fidx.get(la), fidx.get(lb)
+        s, ty = p["similarity"], p["type"]
+        if ia is None or ib is None:
+            bad = "is not a pair of extracted fragments"
+        else:
+            bad = justify_problem(s, p["distance"], ty, frags[ia], frags[ib], cells.get((ia, ib)), t, thr, req["max_edit_distance"], req["min_nodes"], req["min_lines"])
+            if not bad and (s < req["min_similarity"] or s > req["max_similarity"]):
+                bad = "has similarity %r outside the filter range [%r, %r]" % (s, req["min_similarity"], req["max_similarity"])
+            elif not bad and ty not in (req["clone_types"] or []):
+                bad = "has type %d which is not enabled (%s)" % (ty, req["clone_types"])
+            elif not bad and cc.upair(ia, ib) in seen:
+                bad = "is reported twice"
+        if bad:
+            ck.violation("pyscn analyze on a project with %d fragments (batched comparison) reports a pair that is not justified: %s / %s %s" % (n, la, lb, bad),
+                         dict(replay, pair=p))
+            return
+        seen[cc.upair(ia, ib)] = (s, p["distance"], ty)
+        stats["big_cross_batch_pairs"] = stats.get("big_cross_batch_pairs", 0) + (max(ia, ib) >= 100 > min(ia, ib))
+    near = [(k, v) for k, v in cells.items() if k[0] < k[1] and t[3] <= v[0] < thr]
+    far = [(k, v) for k, v in cells.items() if k[0] < k[1] and v[0] >= thr and req["max_edit_distance"] > 0 and v[1] > req["max_edit_distance"]]
+    stats["big_near_miss_similarity"], stats["big_near_miss_distance"] = len(near), len(far)
+    stats["big_near_miss_cross_batch"] = sum(1 for k, _ in near + far if k[1] >= 100 > k[0])
+    if 1 in (req["clone_types"] or []) and req["min_similarity"] <= 1.0 <= req["max_similarity"]:
+        for i in range(n):
+            for j in range(i + 1, n):
+                if frags[i]["tree"] != frags[j]["tree"] or cc.overlap(frags[i], frags[j]):
+                    continue
+                stats["verbatim_expected"] += 1
+                got = seen.get((i, j))
+                if got == (1.0, 0.0, 1):
+                    stats["verbatim_found"] += 1
+                    continue
+                tags = {"kind": "verbatim-missed", "line_count_prefilter_rejects": cc.line_prefilter_rejects(frags[i]["lines"], frags[j]["lines"]),
+                        "reported_otherwise": got is not None}
+                e = ck.match_known(tags)
+                if e:
+                    stats["verbatim_missed_f19"] += 1
+                    ck.known_finding(e)
+                else:
+                    ck.violation("verbatim copy not reported as (1.0, 0, Type-1) in a project with %d fragments: %s vs %s, got %s" % (n, floc(frags[i]), floc(frags[j]), got),
+                                 dict(replay, frag_a=frags[i], frag_b=frags[j], tags=tags))
+    big["seen"] = seen
+    # model: the service pipeline on the candidates of every file; similarity cells = what the lenient run observed (a pair it does
+    # not report was rejected before or by the classification, which the missing cell reproduces), no feature lists
+    cid, pos = [], 0
+    for f in frags:
+        while not (cands[pos]["file"] == f["file"] and cands[pos]["start"] == f["start"] and cands[pos]["end"] == f["end"]):
+            pos += 1
+        cid.append(pos)
+        pos += 1
+    files, trees = cc.Coder(), cc.Coder()
+    byc = {c: i for i, c in enumerate(cid)}
+    cterms = [cc.coq_frag(j, dict(frags[byc[j]], feats=[]) if j in byc else c, files, trees) for j, c in enumerate(cands)]
+    table = {"table": [dict(i=cid[k[0]], j=cid[k[1]], sim=v[0], dist=v[1], gate=True) for k, v in cells.items()]}
+    mode = 1 if req["lsh_enabled"] == "true" else 2 if req["lsh_enabled"] == "false" else 0
+    mc = cc.model_cfg_from_detector(cc.service_cfg(req), req["min_similarity"], req["max_similarity"], req["clone_types"] or [], use_gate=False)
+    cellsq, gates = cc.coq_cells(table, mc["t4"])
+    body = ("Definition cands := %s.\nDefinition tabs := Build_tables %s %s [].\nDefinition c := %s.\nEval vm_compute in (run_report tabs c %s %s cands).\n"
+            % (clist(cterms), cellsq, gates, cc.coq_cfg(mc), cZ(mode), cZ(req["lsh_auto_threshold"])))
+    jobs.append(("C08_big", cc.REQ, body))
+    big["job"], big["cid"] = len(jobs) - 1, cid
+
+
+def tie_big_project(ck, big, model_out, stats):
+    if "job" not in big:
+        return
+    cid = big["cid"]
+    m = {cc.upair(a, b, ty) for a, b, ty in cc.pairs_of_model(model_out[big["job"]][0])}
+    impl = {cc.upair(cid[a], cid[b], ty) for (a, b), (s, d, ty) in big["seen"].items()}
+    stats["big_model_cases"] = 1
+    if impl != m:
+        ck.broken_ties.append("model report differs from pyscn analyze on the big project: model-only %s impl-only %s" % (sorted(m - impl)[:3], sorted(impl - m)[:3]))
+
+
 def validation_section(ck, rng, thorough, stats, base):
     """Which configurations are 'accepted by validation' (the quantifier of C08 and the hypothesis `validate c = true` of every
     theorem in Props/C08.v and Props/C09.v): domain.CloneRequest.Validate and domain.ShouldUseLSH against the model on a lattice
@@ -407,6 +787,10 @@ def main(tier):
     if not ck.go_ok:
         ck.finish()
     base = lib.fresh_dir("c08")
+    # a project with more than 100 fragments through the command line (batched comparison); runs beside the sections below
+    import concurrent.futures
+    workers = concurrent.futures.ThreadPoolExecutor(max_workers=2)
+    big_future = workers.submit(run_big_project, ck, cc.side_rng(rng, "big"), base, thorough)
 
     projects = []
     for pi in range(n_proj):
@@ -434,6 +818,9 @@ def main(tier):
     t0 = time.time()
     probes = [cc.norm(x) for x in lib.driver([cc.driver_req(sorted(t.items()), probe_cfg, table="upper") for t, _ in projects], timeout=1200)]
     lib.log("probe %.1fs" % (time.time() - t0))
+    # detector-level runs on every detection path (small BatchSizeThreshold: the public entry point batches), beside the CLI runs
+    path_runs = plan_path_runs(cc.side_rng(rng, "paths"), projects, probes, thorough)
+    path_future = workers.submit(lambda: [cc.norm(x) for x in lib.driver([r["req"] for r in path_runs], timeout=1800)] if path_runs else [])
 
     runs = []
     for pi, (texts, items) in enumerate(projects):
@@ -558,12 +945,29 @@ def main(tier):
                    clist([skel_term(res["skeletons"][p]) for p in r["skel_files"]])))
         jobs.append(("C08_case_%d" % ri, cc.REQ, body))
         r["job"] = len(jobs) - 1
+    try:
+        decide_path_runs(ck, path_runs, path_future.result(), stats, jobs, thorough)
+    except RuntimeError as e:
+        ck.broken_ties.append("driver clone_pairs failed (detection paths): %s" % str(e)[-500:])
+    big = big_future.result()
+    decide_big_project(ck, big, stats, jobs)
+    lib.log("paths + big project %.1fs" % (time.time() - t0))
     model_out = None
     if jobs and not any(f in ("Clone/Pairs.v", "Clone/PairsRun.v") or "Gen/" in f for f in ck.failed_files):
         try:
-            model_out = [lib.parse_coq_values(o) for o in lib.coq_eval_many(jobs, workers=8)]
+            model_out = [lib.parse_coq_values(o) for o in lib.coq_eval_many(jobs, workers=12)]
         except Exception as e:
             ck.broken_ties.append("model evaluation failed: %s" % str(e)[-800:])
+    if model_out is not None:
+        tie_path_runs(ck, path_runs, model_out, stats)
+        tie_big_project(ck, big, model_out, stats)
+    # the new input classes must have been reached (otherwise the run decides nothing about the reporting threshold / the edit
+    # distance limit on the batched path)
+    if not big.get("error") and not ck.violations:
+        missing = [k for k in ("path_batched_public", "path_near_miss_similarity", "path_near_miss_distance", "big_near_miss_similarity", "big_near_miss_distance",
+                               "big_near_miss_cross_batch") if not stats.get(k)]
+        if missing:
+            ck.broken_ties.append("generator: batched runs with a near miss of the reporting threshold / edit distance limit were not reached: %s" % missing)
 
     lib.log("model %.1fs" % (time.time() - t0))
     # ---- decide per run
@@ -745,8 +1149,9 @@ def main(tier):
     lib.log("validation %.1fs" % (time.time() - t0))
 
     ck.cov.update({
-        "evaluations": stats["cli_runs"] + stats["order_runs"] + stats.get("twin_order_runs", 0) + stats.get("twin_cli_runs", 0),
-        "distinct_nontrivial": stats["reported_pairs"],
+        "evaluations": stats["cli_runs"] + stats["order_runs"] + stats.get("twin_order_runs", 0) + stats.get("twin_cli_runs", 0) +
+                       8 * stats.get("path_runs", 0) + 2 * bool(stats.get("big_fragments")),
+        "distinct_nontrivial": stats["reported_pairs"] + stats.get("path_pairs", 0) + stats.get("big_reported_pairs", 0),
         "rule": "generated projects (fragment library: functions/classes x verbatim+noise / renamed / edited / unrelated x same file, other file, "
                 "other directory) x configurations accepted by Validate (thresholds on observed similarities +-2^-40, min sizes at fragment sizes +-1, "
                 "service filter ranges, enabled type subsets, classifier gate on/off, LSH on/off) x file orders; one verbatim copy per project nested in a "
@@ -757,7 +1162,19 @@ def main(tier):
                 "List/Tuple, ListComp/GeneratorExp, If/IfExp) and for same-category kinds a fragment and its twin differing only in those node types "
                 "(1-4 occurrences): sim/dist/gate in both orientations under the CLI's cost model and the python-boilerplate / ignore / default / "
                 "weighted models, detector and `pyscn analyze` in both file orders with the Type-2 edge or the reporting threshold ON the observed "
-                "similarity (+-2^-40) and with the built-in defaults; distinct = reported pairs checked",
+                "similarity (+-2^-40) and with the built-in defaults; plus every detection path with NON-default reporting limits: detector runs "
+                "through the hook on the generated projects with BatchSizeThreshold 1-3 (the public entry point batches), reporting threshold ON / 2^-40 next "
+                "to an observed similarity above Type-4 and MaxEditDistance ON / next to the observed distance of a pair above that threshold (the first "
+                "runs keep a near miss of each kind), classifier gate on one run in four; every clause of 'justified' (threshold, Type-4, edit "
+                "distance limit, band, minimum sizes, no overlap, similarity/distance = the tree comparison's, no pair twice) and 'verbatim copies "
+                "are reported' decided on the output of the standard double loop, the public entry point, the batched loop with batch sizes 1 / 3 / 7 "
+                "and the LSH path (two settings), model = implementation per path; and one project of families (base, verbatim, renamed, chain of edits) "
+                "with more than 100 fragments through `pyscn analyze` (batched, batch size 100, family members on both sides of the boundary): a lenient "
+                "run observes similarities and distances, the run under test has the type thresholds on observed similarities, the reporting threshold "
+                "(similarity_threshold in .pyscn.toml or --clone-threshold) and max_edit_distance on / next to observed values with near misses of both "
+                "kinds on both sides of the batch boundary, service filter and enabled types varied; every reported pair decided by all clauses, "
+                "verbatim copies expected, model report = reported set; the run fails if a near-miss class was not reached; "
+                "distinct = reported pairs checked",
         "input_distribution": stats,
         "disagreements_checked": len(ck.violations) + len(ck.broken_ties),
     })
@@ -770,6 +1187,9 @@ def main(tier):
         "float64 comparisons sizeDiff/avg > 0.5 and jaccard < 0.10 modelled exactly over Q (no rounding boundary reachable for fragment sizes < 2^52)",
         "sort.Slice is unstable: with more than MaxClonePairs qualifying pairs the kept set is not determined; model and theorems cover the untruncated case exactly",
         "hand-written model Clone/Pairs.v of clone_detector.go / clone_service.go / lsh_index.go",
+        "detection-path runs and the project with more than 100 fragments: the similarity table given to the model (and the clause 'similarity/"
+        "distance are the tree comparison's') is what a lenient run of the same implementation on the same files reported (probe run of the hook / "
+        "`pyscn analyze` with reporting threshold = Type-4 = 0.5), mirrored to both orientations; a pair the lenient run does not report has no cell",
         "fragment candidates: model Clone/Walk.v over the statement lists read from the `range node.<list>` loops of extractFragmentsRecursive / "
         "ConvertAST (translator); compared per file with ExtractFragments (no minimum size) on the statement skeleton the hook builds with "
         "its own traversal of Children, Body, Orelse, Handlers, Finalbody; isFragmentCandidate (the node kinds) is used as is",
